@@ -326,7 +326,7 @@ def main(ctx):
     corpus = sorted(glob.glob(os.path.join(common.REPO, "example", "test", "*.fail.nmfu")))
     ctx.pmap(corpus_worker, [(p, known) for p in corpus])
     n = 250 if quick else 6000
-    stop_at = time.time() + (70 if quick else 1500)
+    stop_at = time.time() + (70 if quick else 900)
     ctx.pmap(worker, [(ctx.seed * 100003 + i, n, known, stop_at) for i in range(common.NPROC)])
     ctx.rule = ("case = program generated without any lookahead constraint in the regular fragment (matches, optional, try, foreach, plain and greedy "
                 "case with match bodies, nesting <= 2); for every case the exact ambiguity decision on derivative automata is compared with the "
